@@ -52,6 +52,19 @@ def unit(prop, name, **kw):
     return deco
 
 
+def _mk_super(cls):
+    import builtins as _b
+    import sys as _sys
+
+    def _super(*a):
+        if a:
+            return _b.super(*a)
+        fr = _sys._getframe(1)
+        me = fr.f_locals[fr.f_code.co_varnames[0]]
+        return _b.super(cls, me)
+    return _super
+
+
 class U:
     """what a unit's prove() function sees"""
 
@@ -74,6 +87,55 @@ class U:
         if ex.info not in self.functions:
             self.functions.append(ex.info)
         return f
+
+    def klass(self, relpath, clsname, globs=None, model=False, only=None, skip=(), bases=(), extra=None, rewrite_comps=True):
+        """a python class assembled from the EXTRACTED text of every method of `clsname` (real source, read now); the
+        decorators property / cached_property / staticmethod / classmethod are re-applied with their standard meaning,
+        any other decorator is dropped (listed in the evidence per function).  The class object is put into the
+        functions' globals under its own name, so `ClassName(...)` inside the methods builds this class."""
+        import ast as _ast
+        import functools
+        from .extract import read_source, find_def
+        src, _ = read_source(relpath)
+        node, _c = find_def(_ast.parse(src), clsname)
+        g = dict(globs or {})
+        ns = {}
+        for item in node.body:
+            if not isinstance(item, _ast.FunctionDef):
+                continue
+            if (only is not None and item.name not in only) or item.name in skip:
+                continue
+            decs = [_ast.unparse(d) for d in item.decorator_list]
+            f = self.fn(relpath, "%s.%s" % (clsname, item.name), globs=g, model=model, rewrite_comps=rewrite_comps)
+            fr = getattr(f, "raw", f)
+            # a method is never reachable by its bare name: the module-level name (if any) stays what the caller supplied
+            fr.__globals__.pop(item.name, None)
+            if item.name in g:
+                fr.__globals__[item.name] = g[item.name]
+            name = item.name
+            if name.startswith("__") and not name.endswith("__"):
+                name = "_%s%s" % (clsname.lstrip("_"), name)
+            if any(d.endswith("setter") for d in decs):
+                continue
+            if "cached_property" in decs or "functools.cached_property" in decs:
+                ns[name] = functools.cached_property(fr)
+            elif "property" in decs:
+                ns[name] = property(fr)
+            elif "staticmethod" in decs:
+                ns[name] = staticmethod(fr)
+            elif "classmethod" in decs:
+                ns[name] = classmethod(fr)
+            else:
+                ns[name] = fr
+        ns.update(extra or {})
+        cls = type(clsname, tuple(bases) or (object,), ns)
+        for v in ns.values():
+            fr = v.func if isinstance(v, functools.cached_property) else v.fget if isinstance(v, property) else \
+                v.__func__ if isinstance(v, (staticmethod, classmethod)) else v
+            if hasattr(fr, "__globals__"):
+                fr.__globals__[clsname] = cls
+                fr.__globals__["super"] = _mk_super(cls)      # zero-argument super() needs the class cell of a class body
+        return cls
 
     def assume(self, c, why=None):
         ctx().assume(c)
